@@ -386,7 +386,7 @@ LONG_NAME = '<5000-byte object>'
 LONG_LINE = '{"k": "%s"}' % ('x' * (5000 - len('{"k": ""}')))
 assert len(LONG_LINE) == 5000
 BADUTF = '{"b": "\udcff\udcfe"}'     # stands for a line holding the bytes ff fe: not valid UTF-8 (binary sources only)
-JSONL_MENU = ('{}', '{"1": 1}', '', '[1, "\u00e9"]', '{corrupt', '   ', LONG_NAME, BADUTF)
+JSONL_MENU = ('{}', '{"1": 1}', '', '[1, "\u00e9"]', '{corrupt', '   ', LONG_NAME, BADUTF, 'null')     # null: a record that is None
 BLANK = ('', '   ')
 JSONL_KINDS = ('file-text', 'file-rb', 'bytesio')
 
